@@ -531,6 +531,17 @@ class ContentsConflict(PathConflict):
         else:
             this_tid = tt.trans_id_tree_path(this_path)
         if this_tid is not None:
+            if this_path == self.path + "." + suffix_to_remove:
+                # Both 'item.THIS' and 'item.OTHER' exist and the file id was
+                # given to the one we have just deleted: hand it over to the
+                # one that is kept.
+                kept = "THIS" if suffix_to_remove == "OTHER" else "OTHER"
+                kept_path = self.path + "." + kept
+                if tt._tree.has_filename(kept_path):
+                    kept_tid = tt.trans_id_tree_path(kept_path)
+                    tt.unversion_file(this_tid)
+                    tt.version_file(kept_tid, file_id=self.file_id)
+                    this_tid = kept_tid
             # Rename 'item.suffix_to_remove' (note that if
             # 'item.suffix_to_remove' has been deleted, this is a no-op)
             parent_tid = tt.get_tree_parent(this_tid)
